@@ -1761,7 +1761,7 @@ def evPark : List Ev :=
 /-- genesis: the controller deployment (one run, one `code` row) and the finalise rows of block 0 -/
 def evGenesis : List Ev :=
   [ .x "tx" [("number", "0"), ("ts", "100"), ("prevrandao", h0), ("basefee", "0"), ("gasprice", "0"), ("value", "0"),
-             ("coinbase", addr0), ("txid", zeroHash)] true true 21000 0,
+             ("coinbase", addr0), ("txid", zeroHash), ("blockgaslimit", "18446744073709551615")] true true 21000 0,
     .s "code" 0 "c0de" (some "6001"),
     .s "account" 0 "aa" (some acct0),
     .s "block_number_to_block" 0 "0000000000000000" (some "b0"),
@@ -1772,7 +1772,7 @@ def evGenesis : List Ev :=
 /-- block 1: an inscription call (one run, the account row rewritten) -/
 def evCall : List Ev :=
   [ .x "tx" [("number", "1"), ("ts", "200"), ("prevrandao", h1), ("basefee", "0"), ("gasprice", "0"), ("value", "0"),
-             ("coinbase", addr0), ("txid", "ab")] true true 30000 1,
+             ("coinbase", addr0), ("txid", "ab"), ("blockgaslimit", "18446744073709551615")] true true 30000 1,
     .s "account" 1 "aa" (some acct1),
     .s "tx" 1 "t1" (some "x") ]
 
